@@ -373,7 +373,10 @@ class BacktestingDispatcher(EventDispatcher):
     async def _dispatch_events(self, dt: datetime.datetime):
         # Pop events, push them into the task pool, and wait those to finish executing.
         self._last_dt = dt
-        for source, evnt in self._event_mux.pop_while(dt):
+        # Pop all the events before dispatching any of them. Handlers may generate new events for dt (i.e. the exchange
+        # forwarding bar events) and those should be dispatched on the next pass, once all the events that were already
+        # available for dt got handled, regardless of the task pool size.
+        for source, evnt in list(self._event_mux.pop_while(dt)):
             await self._handlers_task_pool.push(
                 self._dispatch_event(EventDispatch(event=evnt, handlers=self._event_handlers.get(source, [])))
             )
